@@ -366,9 +366,8 @@ Proof.
   - inversion E; subst. unfold bad. cbn [now reads overs]. rewrite R. rsplit; try reflexivity; try lia.
   - inversion Hr as [|? ? [Hp Hj] Hrs]; subst. inversion E; subst. unfold advance, bad.
     cbn [now mono reads overs log fst snd] in *. tz. rewrite R.
-    destruct (bad_reads_cons p j rs) as [B1 [B2 B3]].
-    rsplit; try reflexivity; try lia.
-    destruct (Z.eq_dec j 0) as [J|J]; [left; lia|right; specialize (B2 ltac:(lia)); lia].
+    unfold bad_reads. cbn [filter snd].
+    destruct (0 <? j) eqn:J; cbn [length]; rsplit; try reflexivity; try lia.
 Qed.
 
 Lemma sleep_cases : forall (w : zworld) d,
@@ -396,7 +395,7 @@ Proof.
   destruct (latest_spec _ _ _ _ _ E) as [r [R [L1 [L2 [L3 _]]]]].
   destruct (read_facts _ _ _ Hw R) as [Hw' _].
   destruct (read_cases _ _ _ Hw R) as [_ [Rn [B C]]]. subst l. subst r.
-  rsplit; try assumption; try reflexivity.
+  rsplit; try assumption; try reflexivity; try lia.
 Qed.
 
 Definition ready (tm : ztimer) (w : zworld) : Prop := t_stop tm <= now w /\ t_last tm <= now w.
@@ -422,8 +421,8 @@ Proof.
   destruct (sleep_cases w2 _ Hw2 Hd) as [B3 C3].
   apply IH; [assumption|].
   destruct C3 as [C3|C3].
-  - left. split; [split; lia|lia].
-  - right. lia.
+  - left. tz. unfold ready. rsplit; lia.
+  - right. tz. lia.
 Qed.
 
 Lemma wait_world : forall fuel tm w acc tm' w' sl,
@@ -470,4 +469,115 @@ Proof.
   specialize (C ltac:(lia)).
   destruct (cycles fuel tm0 (clear_log w0) works) as [[[cs tmf] wf]|]; [|contradiction].
   eexists _, _, _. reflexivity.
+Qed.
+
+(* ------------------------------------------------------------------ a clock that never steps back: no shifts at all *)
+
+Definition no_retro (rs : list (Z * Z)) : Prop := Forall (fun s => snd s = 0) rs.
+
+(* the reading log shows no retrograde and its newest entry is not above the clock *)
+Definition flat (w : zworld) : Prop :=
+  shifts (log w) = 0 /\ (forall h t, log w = h :: t -> h <= now w) /\ no_retro (reads w).
+
+Lemma flat_advance : forall w s, step_ok s -> snd s = 0 -> flat w -> flat (advance w s).
+Proof.
+  intros w [p j] [Hp _] Hj [A [B C]]. cbn [snd fst] in *. subst j.
+  unfold flat, advance. cbn [now log reads fst snd]. tz. rsplit; try assumption.
+  intros h t E. specialize (B h t E). lia.
+Qed.
+
+Lemma flat_sleep : forall w d, world_ok w -> 0 <= d -> flat w -> flat (sleep w d).
+Proof.
+  intros w d [Hr Ho] Hd [A [B C]]. unfold flat. rewrite sleep_log. rsplit; try assumption.
+  - intros h t E. specialize (B h t E).
+    unfold sleep. destruct (overs w) as [|[o|e] os] eqn:O; cbn [now]; tz.
+    + lia.
+    + inversion Ho as [|? ? Hoo Hos]; subst. cbn in Hoo. lia.
+    + inversion Ho as [|? ? Hoo Hos]; subst. cbn in Hoo. destruct (e <? d) eqn:X; lia.
+  - unfold sleep. destruct (overs w) as [|[o|e] os]; exact C.
+Qed.
+
+Lemma flat_read : forall w w' r, world_ok w -> flat w -> read w = (r, w') -> flat w'.
+Proof.
+  intros w w' r [Hr Ho] [A [B C]] E. unfold read in E. destruct (reads w) as [|[p j] rs] eqn:R.
+  - inversion E; subst. unfold flat. cbn [log now reads]. rewrite R. rsplit.
+    + destruct (log w) as [|h t] eqn:L; [reflexivity|]. specialize (B h t eq_refl).
+      cbn [shifts] in *. lia.
+    + intros h t X. inversion X; subst. lia.
+    + constructor.
+  - inversion Hr as [|? ? [Hp Hj] Hrs]; subst. inversion C as [|? ? Hj0 Crs]; subst.
+    cbn [fst snd] in *. subst j. inversion E; subst. unfold flat, advance. cbn [log now reads fst snd]. tz. rsplit.
+    + destruct (log w) as [|h t] eqn:L; [reflexivity|]. specialize (B h t eq_refl).
+      cbn [shifts] in *. lia.
+    + intros h t X. inversion X; subst. lia.
+    + assumption.
+Qed.
+
+Lemma flat_latest : forall (tm tm' : ztimer) w w' l,
+  world_ok w -> flat w -> latest tm w = (tm', l, w') -> flat w'.
+Proof.
+  intros tm tm' w w' l Hw F E. destruct (latest_spec _ _ _ _ _ E) as [r [R _]].
+  exact (flat_read _ _ _ Hw F R).
+Qed.
+
+Lemma flat_wait : forall fuel (tm : ztimer) w acc tm' w' sl,
+  world_ok w -> flat w -> wait fuel tm w acc = Some (tm', w', sl) -> flat w'.
+Proof.
+  induction fuel as [|f IH]; intros tm w acc tm' w' sl Hw F E; [discriminate|].
+  cbn [wait] in E. unfold expired in E.
+  destruct (latest tm w) as [[tm1 l1] w1] eqn:L1.
+  destruct (latest_cases _ _ _ _ _ Hw L1) as [Hw1 _].
+  pose proof (flat_latest _ _ _ _ _ Hw F L1) as F1.
+  destruct (tleb (t_stop tm1) l1).
+  - inversion E; subst. assumption.
+  - unfold remaining in E. destruct (latest tm1 w1) as [[tm2 l2] w2] eqn:L2.
+    destruct (latest_cases _ _ _ _ _ Hw1 L2) as [Hw2 _].
+    pose proof (flat_latest _ _ _ _ _ Hw1 F1 L2) as F2. tz.
+    pose proof (max0_nonneg (t_stop tm1 - l2)) as Hd.
+    destruct (sleep_facts w2 _ Hw2 Hd) as [Hw3 _].
+    exact (IH _ _ _ _ _ _ Hw3 (flat_sleep _ _ Hw2 Hd F2) E).
+Qed.
+
+Lemma flat_cycles : forall works fuel (tm : ztimer) w cs tmf wf,
+  world_ok w -> flat w -> Forall step_ok works -> no_retro works ->
+  cycles fuel tm w works = Some (cs, tmf, wf) ->
+  forall k c, nth_error cs k = Some c -> shifts (c_log c) = 0.
+Proof.
+  induction works as [|wk rest IH]; intros fuel tm w cs tmf wf Hw F Hs Hn E k c Hk.
+  - cbn in E. inversion E; subst. destruct k; discriminate.
+  - cbn [cycles] in E. inversion Hs as [|? ? Hwk Hrest]; subst. inversion Hn as [|? ? Hj Hnrest]; subst.
+    destruct (wait fuel tm (advance w wk) []) as [[[tm1 w1] sl]|] eqn:W; [|discriminate].
+    destruct (cycles fuel (restart tm1) w1 rest) as [[[cs' tmf'] wf']|] eqn:C; [|discriminate].
+    inversion E; subst. clear E.
+    pose proof (advance_ok w wk Hw) as Hwa.
+    pose proof (flat_wait _ _ _ _ _ _ _ Hwa (flat_advance _ _ Hwk Hj F) W) as F1.
+    destruct (wait_world _ _ _ _ _ _ _ Hwa W) as [Hw1 _].
+    destruct k as [|k].
+    + cbn in Hk. inversion Hk; subst. cbn. exact (proj1 F).
+    + cbn in Hk. exact (IH _ _ _ _ _ _ Hw1 F1 Hrest Hnrest C k c Hk).
+Qed.
+
+(* steady, stalled or merely late clock: every deadline is exactly start + (k+1) tocks *)
+Theorem do_real_no_drift : forall fuel tock (tm : ztimer) (w : zworld) works out tmf wf,
+  world_ok w -> Forall step_ok works -> no_retro (reads w) -> no_retro works ->
+  do_real VSync fuel tock tm w works = Some (out, tmf, wf) ->
+  forall k c, nth_error (r_cycles out) k = Some c ->
+    c_stop c = r_now out + (Z.of_nat k + 1) * tock.
+Proof.
+  intros fuel tock tm w works out tmf wf Hw Hs Hnr Hnw E k c Hk.
+  rewrite (do_real_lossless _ _ _ _ _ _ _ _ E k c Hk).
+  unfold do_real in E.
+  destruct (start_run VSync tock tm w) as [tm0 w0] eqn:S.
+  destruct (start_sync_spec _ _ _ _ _ S) as [r [R _]].
+  destruct (read_log _ _ _ R) as [Rn Lg]. destruct (read_facts _ _ _ Hw R) as [Hw0 _].
+  destruct (cycles fuel tm0 (clear_log w0) works) as [[[cs tmf'] wf']|] eqn:Cy; [|discriminate].
+  inversion E; subst out tmf' wf'. clear E. cbn [r_cycles] in Hk.
+  assert (F : flat (clear_log w0)).
+  { unfold flat, clear_log. cbn [log now reads]. rewrite Lg. cbn [firstn shifts]. rsplit.
+    - reflexivity.
+    - intros h t X. inversion X; subst. lia.
+    - unfold read in R. destruct (reads w) as [|[p j] rs] eqn:Q; inversion R; subst; cbn [reads advance].
+      + rewrite Q. constructor.
+      + inversion Hnr; assumption. }
+  rewrite (flat_cycles _ _ _ _ _ _ _ (clear_log_ok _ Hw0) F Hs Hnw Cy k c Hk). lia.
 Qed.
